@@ -18,8 +18,14 @@
 #include <unistd.h>
 #include <sys/wait.h>
 #include <signal.h>
+#include <errno.h>
 #include <new>
 #include <atomic>
+#include <algorithm>
+#include <deque>
+#include <stdexcept>
+#include <system_error>
+#include <cstring>
 #include <chrono>
 #include <condition_variable>
 #include <functional>
@@ -38,6 +44,15 @@ static thread_local int t_role = 0;                // 0 unknown (back end / othe
 static thread_local uint64_t t_rng = 0;
 static thread_local uint32_t t_epoch = 0xffffffff;
 static thread_local bool t_busy = false;
+// acquisition order (step-level tie of the ghost `acq` of C10_stream): every append made by the harness registers a
+// record here; the interposed pthread_mutex_lock stamps it with a global sequence number when the FIRST mutex is
+// obtained inside that append (= curr_buffer_mutex_ in the code as written).  M-class: a rewrite may lock differently.
+struct AppRec { unsigned tid, seq; uint64_t acq; };
+static std::atomic<uint64_t> g_gseq{0};
+static thread_local AppRec *t_app = nullptr;
+static std::atomic<bool> g_fail_thread_create{false};
+static std::atomic<bool> g_in_init{false};           // inside AsyncPipe::initialize: count the threads it creates (M-class `threads=`)
+static std::atomic<int> g_init_threads{0};   // `initfail thread`: the next pthread_create answers EAGAIN
 
 static inline uint64_t next_rand() {
     uint32_t e = g_epoch.load(std::memory_order_relaxed);
@@ -71,7 +86,15 @@ extern "C" {
 int pthread_mutex_lock(pthread_mutex_t *m) {
     static auto real = real_fn<int (*)(pthread_mutex_t *)>("pthread_mutex_lock");
     maybe_delay();
-    return real(m);
+    int r = real(m);
+    if (t_app && t_app->acq == 0 && r == 0) t_app->acq = g_gseq.fetch_add(1) + 1;
+    return r;
+}
+int pthread_create(pthread_t *th, const pthread_attr_t *attr, void *(*fn)(void *), void *arg) {
+    static auto real = real_fn<int (*)(pthread_t *, const pthread_attr_t *, void *(*)(void *), void *)>("pthread_create");
+    if (g_fail_thread_create.exchange(false)) return EAGAIN;
+    if (g_in_init.load()) g_init_threads.fetch_add(1);
+    return real(th, attr, fn, arg);
 }
 int pthread_mutex_unlock(pthread_mutex_t *m) {
     static auto real = real_fn<int (*)(pthread_mutex_t *)>("pthread_mutex_unlock");
@@ -129,10 +152,21 @@ static void track_free(void *p) {
         if (g_slots[i].load(std::memory_order_relaxed) == p && g_slots[i].compare_exchange_strong(expect, nullptr)) { g_live_bufs.fetch_sub(1); return; }
     }
 }
+// fault schedule (`allocfail k1,k2,..`): the listed ordinals of buffer-storage allocations (counted from the arming) throw
+// std::bad_alloc, exactly what `new uint8_t[cap]` does when memory is exhausted
+static std::atomic<long> g_alloc_ord{0};
+static long g_fail_at[8];
+static std::atomic<int> g_fail_n{0};
+static std::atomic<long> g_alloc_failed{0};
 void *operator new[](size_t n) {
+    size_t t = g_track_size.load(std::memory_order_relaxed);
+    if (t != 0 && n == t) {
+        long ord = g_alloc_ord.fetch_add(1) + 1;
+        int fn = g_fail_n.load(std::memory_order_acquire);
+        for (int i = 0; i < fn; ++i) if (g_fail_at[i] == ord) { g_alloc_failed.fetch_add(1); throw std::bad_alloc(); }
+    }
     void *p = malloc(n ? n : 1);
     if (!p) throw std::bad_alloc();
-    size_t t = g_track_size.load(std::memory_order_relaxed);
     if (t != 0 && n == t) track_alloc(p);
     return p;
 }
@@ -140,17 +174,27 @@ void operator delete[](void *p) noexcept { if (g_track_size.load(std::memory_ord
 void operator delete[](void *p, size_t) noexcept { if (g_track_size.load(std::memory_order_relaxed) != 0) track_free(p); free(p); }
 
 // ---------------------------------------------------------------- records (same format as the driver)
-static inline uint8_t payload_byte(unsigned tid, unsigned seq, unsigned i) { return (uint8_t)((tid * 37u + seq * 11u + i * 7u + 3u) % 251u); }
+static inline uint8_t payload_byte(unsigned tid, unsigned seq, uint64_t i) { return (uint8_t)(((uint64_t)tid * 37u + (uint64_t)seq * 11u + i * 7u + 3u) % 251u); }
+static inline uint8_t header_byte(unsigned tid, unsigned seq, uint64_t len, unsigned k) {
+    switch (k) { case 0: return (uint8_t)(0xA0 + tid); case 1: return (uint8_t)(seq / 256); case 2: return (uint8_t)(seq % 256);
+                 case 3: return (uint8_t)(len / 256); default: return (uint8_t)(len % 256); }
+}
 
-static std::vector<uint8_t> record_bytes(unsigned tid, unsigned seq, unsigned len) {
-    std::vector<uint8_t> r; r.reserve(len + 5);
-    r.push_back((uint8_t)(0xA0 + tid)); r.push_back((uint8_t)(seq / 256)); r.push_back((uint8_t)(seq % 256));
-    r.push_back((uint8_t)(len / 256)); r.push_back((uint8_t)(len % 256));
-    for (unsigned i = 0; i < len; ++i) r.push_back(payload_byte(tid, seq, i));
+static std::vector<uint8_t> record_bytes(unsigned tid, unsigned seq, uint64_t len) {
+    std::vector<uint8_t> r(len + 5);
+    for (unsigned k = 0; k < 5; ++k) r[k] = header_byte(tid, seq, len, k);
+    uint64_t first = len < 251 ? len : 251;                     // the payload has period 251
+    for (uint64_t i = 0; i < first; ++i) r[5 + i] = payload_byte(tid, seq, i);
+    for (uint64_t have = first; have < len;) {                  // `have` is a multiple of 251 here: copying from the start keeps the phase
+        uint64_t n = have < len - have ? have : len - have;
+        memcpy(&r[5 + have], &r[5], n); have += n;
+    }
     return r;
 }
 
 struct Tok { char kind; unsigned len; };   // 'a' append, 'g' grouped (lock + 2 lockless + unlock), 'z' zero-size append
+
+static const uint64_t kMaxTok = 200000;
 
 static bool parse_toks(const std::string &w, std::vector<Tok> &out) {
     out.clear();
@@ -160,8 +204,8 @@ static bool parse_toks(const std::string &w, std::vector<Tok> &out) {
         std::string t = w.substr(pos, c == std::string::npos ? std::string::npos : c - pos);
         Tok k; uint64_t n;
         if (t == "z") { k.kind = 'z'; k.len = 0; }
-        else if (!t.empty() && t[0] == 'g') { if (!vh::to_u64(t.substr(1), n) || n > 20000) return false; k.kind = 'g'; k.len = (unsigned)n; }
-        else { if (!vh::to_u64(t, n) || n > 20000) return false; k.kind = 'a'; k.len = (unsigned)n; }
+        else if (!t.empty() && t[0] == 'g') { if (!vh::to_u64(t.substr(1), n) || n > kMaxTok) return false; k.kind = 'g'; k.len = (unsigned)n; }
+        else { if (!vh::to_u64(t, n) || n > kMaxTok) return false; k.kind = 'a'; k.len = (unsigned)n; }
         out.push_back(k);
         if (c == std::string::npos) break;
         pos = c + 1;
@@ -170,6 +214,7 @@ static bool parse_toks(const std::string &w, std::vector<Tok> &out) {
 }
 
 // ---------------------------------------------------------------- one pipe lifecycle
+struct Expect { unsigned tid, seq; uint64_t len; };
 struct Sink {
     std::vector<uint8_t> stream;
     std::vector<size_t> lens;
@@ -186,16 +231,84 @@ struct Sink {
     std::atomic<bool> echo_stop{false};        // set before cleanup(): no nested append may start any more
     std::atomic<int> in_echo{0};
     std::vector<size_t> echo_blocks;           // ordinal of the block whose callback made each nested append
+    // `compact` lifecycle (sizes around 2^24 / 2^31): appends are made one at a time (`big`), so the expected stream is the
+    // records in program order; the sink compares every block with it on the fly and keeps no copy
+    std::atomic<bool> compact{false};
+    std::mutex xm; std::vector<Expect> expect;
+    size_t xrec = 0; uint64_t xoff = 0, total = 0, firstbad = 0; bool match = true;
 };
+
+static void compact_verify(Sink *s, const uint8_t *q, size_t n) {
+    size_t i = 0;
+    while (i < n) {
+        Expect e;
+        { std::lock_guard<std::mutex> lg(s->xm);
+          if (s->xrec >= s->expect.size()) { if (s->match) { s->match = false; s->firstbad = s->total + i; } break; }
+          e = s->expect[s->xrec]; }
+        uint64_t rl = e.len + 5;
+        while (i < n && s->xoff < rl) {
+            if (s->xoff < 5) {
+                if (q[i] != header_byte(e.tid, e.seq, e.len, (unsigned)s->xoff) && s->match) { s->match = false; s->firstbad = s->total + i; }
+                ++i; ++s->xoff;
+            } else {
+                static uint8_t pat[251 * 64]; static unsigned pt = ~0u, ps = ~0u;
+                if (pt != e.tid || ps != e.seq) { for (unsigned k = 0; k < sizeof pat; ++k) pat[k] = payload_byte(e.tid, e.seq, k); pt = e.tid; ps = e.seq; }
+                uint64_t po = s->xoff - 5, ph = po % 251;
+                uint64_t m = n - i; if (m > rl - s->xoff) m = rl - s->xoff; if (m > sizeof pat - ph) m = sizeof pat - ph;
+                if (memcmp(q + i, pat + ph, m) != 0 && s->match) { s->match = false; s->firstbad = s->total + i; }
+                i += m; s->xoff += m;
+            }
+        }
+        if (s->xoff >= rl) { ++s->xrec; s->xoff = 0; }
+    }
+    s->total += n;
+}
 
 struct Prod { unsigned tid; unsigned pace_us; std::vector<Tok> toks; };
 
 static tbox::util::AsyncPipe *g_pipe = nullptr;
 static bool g_live = false;
+static bool g_appended_any = false;
 static Sink *g_sink = nullptr;
 static std::vector<Prod> g_declared;
 static unsigned g_seq[8];
 static uint32_t g_sink_us = 0;
+static std::mutex g_rec_m;
+static std::deque<AppRec> g_recs;                                // every traced append of this lifecycle
+static std::vector<std::pair<unsigned, unsigned>> g_aborted;     // appends that reported std::bad_alloc to their caller
+
+// one append (or one lock + 2 lockless + unlock group), with its acquisition stamp and its outcome
+static void do_append(unsigned tid, unsigned seq, char kind, const std::vector<uint8_t> &r0) {
+    // memory placement (lesson c): the bytes are handed over from a heap block of exactly off + n bytes, starting at offset
+    // off = (tid + seq) % 8 — every alignment of the start pointer, the end flush against the block's end (ASan redzone)
+    struct View { std::unique_ptr<uint8_t[]> blk; const uint8_t *p; size_t n; const uint8_t *data() const { return p; } size_t size() const { return n; } } r;
+    size_t off = r0.size() <= (1u << 20) ? (tid + seq) % 8 : 0;
+    if (off) { r.blk.reset(static_cast<uint8_t *>(::operator new[](off + r0.size() + (g_track_size.load() == off + r0.size() ? 1 : 0))));
+               memcpy(r.blk.get() + off, r0.data(), r0.size()); r.p = r.blk.get() + off; }
+    else r.p = r0.data();
+    r.n = r0.size();
+    AppRec *rec;
+    { std::lock_guard<std::mutex> lg(g_rec_m); g_recs.push_back(AppRec{tid, seq, 0}); rec = &g_recs.back(); }
+    t_app = rec;
+    try {
+        if (kind == 'g') {
+            size_t h = r.size() / 2;
+            g_pipe->appendLock();
+            try {
+                g_pipe->appendLockless(r.data(), h);
+                g_pipe->appendLockless(r.data() + h, r.size() - h);
+            } catch (...) { g_pipe->appendUnlock(); throw; }
+            g_pipe->appendUnlock();
+        } else {
+            g_pipe->append(r.data(), r.size());
+        }
+        t_app = nullptr;
+    } catch (const std::bad_alloc &) {
+        t_app = nullptr;
+        std::lock_guard<std::mutex> lg(g_rec_m);
+        g_aborted.push_back(std::make_pair(tid, seq));
+    }
+}
 
 static unsigned watchdog_ms() {
     const char *e = getenv("C10_WATCHDOG_MS");
@@ -232,12 +345,16 @@ struct Watchdog {
     }
 };
 
-static bool guarded_cleanup(bool announce) {
-    Watchdog wd("cleanup", watchdog_ms(), announce);
+static void quiesce_sink() {
     if (g_sink) {   // cleanup begins at a quiescent point: no nested append in flight, none may start (they would be `late`)
         g_sink->echo_stop.store(true, std::memory_order_release);
         while (g_sink->in_echo.load() != 0) usleep(200);
     }
+}
+
+static bool guarded_cleanup(bool announce) {
+    Watchdog wd("cleanup", watchdog_ms(), announce);
+    quiesce_sink();
     g_pipe->cleanup();
     return true;
 }
@@ -250,7 +367,8 @@ static void drop_pipe() {
     }
     delete g_sink; g_sink = nullptr;
     g_live = false; g_declared.clear();
-    g_max_us = 0; g_sink_us = 0;
+    g_max_us = 0; g_sink_us = 0; g_fail_n = 0;
+    g_recs.clear(); g_aborted.clear();
 }
 
 static void producer_main(const Prod &p, unsigned first_seq, std::atomic<bool> &go) {
@@ -260,29 +378,38 @@ static void producer_main(const Prod &p, unsigned first_seq, std::atomic<bool> &
     for (const Tok &k : p.toks) {
         if (k.kind == 'z') {
             uint8_t dummy = 0;
-            g_pipe->append(&dummy, 0);
+            g_pipe->append((seq & 1) ? nullptr : &dummy, 0);     // size 0: the pointer is never looked at, nullptr included
         } else {
             std::vector<uint8_t> r = record_bytes(p.tid, seq, k.len);
-            if (k.kind == 'g') {
-                size_t h = r.size() / 2;
-                g_pipe->appendLock();
-                g_pipe->appendLockless(r.data(), h);
-                g_pipe->appendLockless(r.data() + h, r.size() - h);
-                g_pipe->appendUnlock();
-            } else {
-                g_pipe->append(r.data(), r.size());
-            }
+            do_append(p.tid, seq, k.kind, r);
             ++seq;
         }
         if (p.pace_us) usleep(p.pace_us);
     }
 }
 
-// An append racing with cleanup() — OUTSIDE the property statement (it speaks of what was appended before
-// cleanup began).  Run in a forked child (fresh pipe object, its own sanitizer verdict) so that whatever the real
-// code does — lose the tail, leave the producer blocked for ever, trip assert(full_buffers_.empty()), race on
-// curr_buffer_ — is only DOCUMENTED (M-class line), never judged.  The parent has no other thread alive here.
-static const char *late_experiment(size_t size, size_t maxn, unsigned nrec) {
+// ---------------------------------------------------------------- documented experiments (M-class, never judged)
+// Uses OUTSIDE the property statement, each run in a forked child (fresh pipe object, its own sanitizer verdict) so that
+// whatever the real code does is only DOCUMENTED as a tag.  The parent has no other thread alive here.
+//   late       an append racing with cleanup() (the statement speaks of what was appended before cleanup began)
+//   lockless   two threads call appendLockless() WITHOUT appendLock(): the documented contract is broken
+//   cbthrow    the sink callback throws
+//   cbcleanup  the sink callback calls cleanup() on its own pipe (the back end would join itself)
+static bool stream_intact(const std::vector<uint8_t> &st, unsigned nthreads, unsigned nrec, uint64_t len) {
+    unsigned next[8] = {0};
+    size_t pos = 0;
+    while (pos < st.size()) {
+        unsigned tid = (unsigned)st[pos] - 0xA0;
+        if (st[pos] < 0xA0 || tid >= nthreads || next[tid] >= nrec) return false;
+        std::vector<uint8_t> r = record_bytes(tid, next[tid], len);
+        if (st.size() - pos < r.size() || memcmp(&st[pos], r.data(), r.size()) != 0) return false;
+        pos += r.size(); ++next[tid];
+    }
+    for (unsigned t = 0; t < nthreads; ++t) if (next[t] != nrec) return false;
+    return true;
+}
+
+static const char *experiment(const std::string &kind, size_t size, size_t maxn, unsigned nrec) {
     pid_t pid = fork();
     if (pid < 0) return "fork-failed";
     if (pid == 0) {
@@ -290,30 +417,69 @@ static const char *late_experiment(size_t size, size_t maxn, unsigned nrec) {
         tbox::util::AsyncPipe pipe;
         tbox::util::AsyncPipe::Config cfg; cfg.buff_size = size; cfg.buff_min_num = 1; cfg.buff_max_num = maxn; cfg.interval = 1;
         if (!pipe.initialize(cfg)) _exit(29);
-        std::atomic<size_t> delivered{0};
-        pipe.setCallback([&](const void *, size_t n) { delivered += n; usleep(300); });
-        std::atomic<bool> started{false}, finished{false};
-        size_t appended = 0;
-        std::thread th([&] {
-            t_role = 1;
-            for (unsigned i = 0; i < nrec; ++i) {
-                std::vector<uint8_t> r = record_bytes(0, i, (unsigned)(3 * size));
-                started.store(true);
-                pipe.append(r.data(), r.size());
-                appended += r.size();
-            }
-            finished.store(true, std::memory_order_release);
-        });
-        while (!started.load()) std::this_thread::yield();
-        usleep(1500);
-        std::atomic<bool> cleaned{false};
+        std::atomic<bool> cleaned{false}, finished{false};
         std::thread wd([&] { t_role = -1; for (int i = 0; i < 150 && !(cleaned.load() && finished.load()); ++i) usleep(10000);
                              if (!cleaned.load()) _exit(23); if (!finished.load()) _exit(22); });
-        pipe.cleanup();
-        cleaned.store(true);
-        wd.join();
-        th.join();
-        _exit(delivered.load() == appended ? 20 : 21);
+        if (kind == "late") {
+            std::atomic<size_t> delivered{0};
+            pipe.setCallback([&](const void *, size_t n) { delivered += n; usleep(300); });
+            std::atomic<bool> started{false};
+            size_t appended = 0;
+            std::thread th([&] {
+                t_role = 1;
+                for (unsigned i = 0; i < nrec; ++i) {
+                    std::vector<uint8_t> r = record_bytes(0, i, 3 * size);
+                    started.store(true);
+                    pipe.append(r.data(), r.size());
+                    appended += r.size();
+                }
+                finished.store(true, std::memory_order_release);
+            });
+            while (!started.load()) std::this_thread::yield();
+            usleep(1500);
+            pipe.cleanup();
+            cleaned.store(true);
+            wd.join();
+            th.join();
+            _exit(delivered.load() == appended ? 20 : 21);
+        } else if (kind == "lockless") {
+            std::vector<uint8_t> st;
+            pipe.setCallback([&](const void *p, size_t n) { const uint8_t *q = static_cast<const uint8_t *>(p); st.insert(st.end(), q, q + n); });
+            std::atomic<bool> go{false};
+            auto body = [&](unsigned tid) {
+                t_role = (int)tid + 1;
+                while (!go.load()) std::this_thread::yield();
+                for (unsigned i = 0; i < nrec; ++i) { std::vector<uint8_t> r = record_bytes(tid, i, 3 * size); pipe.appendLockless(r.data(), r.size()); }
+            };
+            std::thread a(body, 0u), b(body, 1u);
+            go.store(true);
+            a.join(); b.join();
+            finished.store(true);
+            pipe.cleanup();
+            cleaned.store(true);
+            wd.join();
+            _exit(stream_intact(st, 2, nrec, 3 * size) ? 20 : 24);
+        } else if (kind == "cbthrow") {
+            pipe.setCallback([&](const void *, size_t) { throw std::runtime_error("sink failed"); });
+            std::vector<uint8_t> r = record_bytes(0, 0, 3 * size);
+            pipe.append(r.data(), r.size());
+            finished.store(true);
+            pipe.cleanup();
+            cleaned.store(true);
+            wd.join();
+            _exit(25);
+        } else {   // cbcleanup
+            std::atomic<int> calls{0};
+            pipe.setCallback([&](const void *, size_t) { if (calls.fetch_add(1) == 0) pipe.cleanup(); });
+            std::vector<uint8_t> r = record_bytes(0, 0, size);
+            pipe.append(r.data(), r.size());
+            finished.store(true);
+            usleep(20000);
+            pipe.cleanup();
+            cleaned.store(true);
+            wd.join();
+            _exit(26);
+        }
     }
     int st = 0;
     if (waitpid(pid, &st, 0) < 0) return "wait-failed";
@@ -323,12 +489,90 @@ static const char *late_experiment(size_t size, size_t maxn, unsigned nrec) {
         case 21: return "data-lost";
         case 22: return "producer-blocked";
         case 23: return "cleanup-blocked";
+        case 24: return "torn";
+        case 25: return "exception-swallowed";
+        case 26: return "returned";
         case 97: case 98: case 99: return "sanitizer-report";
         default: return "other";
     }
 }
 
-static bool in_range(const std::string &w, uint64_t hi, uint64_t &v) { return vh::to_u64(w, v) && v <= hi; }
+static bool in_range(const std::string &w, uint64_t hi, uint64_t &v) { return w.size() <= 18 && vh::to_u64(w, v) && v <= hi; }
+
+static const uint64_t kMaxSize = 8589934592ull;        // 2^33
+static const uint64_t kMaxInterval = 4294967297ull;    // 2^32 + 1 ms
+
+static std::string rle(const std::vector<size_t> &v) {
+    std::string s;
+    for (size_t i = 0; i < v.size();) {
+        size_t j = i; while (j < v.size() && v[j] == v[i]) ++j;
+        if (!s.empty()) s.push_back(',');
+        s += std::to_string(v[i]);
+        if (j - i > 1) { s.push_back('*'); s += std::to_string(j - i); }
+        i = j;
+    }
+    return s.empty() ? "-" : s;
+}
+
+static void install_sink() {
+    Sink *s = g_sink;
+    g_pipe->setCallback([s](const void *p, size_t n) {
+        if (s->inside.fetch_add(1) != 0) s->overlap = true;
+        s->lens.push_back(n);
+        const uint8_t *q = static_cast<const uint8_t *>(p);
+        if (s->compact.load(std::memory_order_acquire)) compact_verify(s, q, n);
+        else s->stream.insert(s->stream.end(), q, q + n);
+        if (s->echo_mode != 0 && !s->echo_stop.load(std::memory_order_acquire) && s->echo_seq < 40) {
+            size_t ord = s->lens.size() - 1;
+            bool fire = s->echo_mode.load() == 1 ? (ord % s->echo_n.load() == 0) : (n < s->buff_size);
+            if (fire) {
+                s->in_echo.fetch_add(1);
+                if (!s->echo_stop.load(std::memory_order_acquire)) {
+                    std::vector<uint8_t> r = record_bytes(8, s->echo_seq, s->echo_len.load());
+                    do_append(8, s->echo_seq, 'a', r);               // nested append from inside the sink callback
+                    s->echo_blocks.push_back(ord);
+                    ++s->echo_seq;
+                }
+                s->in_echo.fetch_sub(1);
+            }
+        }
+        if (s->sink_us) usleep(s->sink_us);
+        while (s->gate_closed.load(std::memory_order_acquire)) { s->held.store(true); usleep(200); }
+        s->held.store(false);
+        maybe_delay();
+        s->inside.fetch_sub(1);
+    });
+}
+
+// the observables of one finished lifecycle (after cleanup() or after the destructor)
+static void print_lifecycle(const char *first) {
+    g_track_size = 0; g_fail_n = 0;
+    g_live = false; g_declared.clear();
+    std::cout << first << "\n";
+    if (g_sink->compact.load()) {
+        std::cout << "K " << rle(g_sink->lens) << "\n";
+        std::cout << "S compact total=" << g_sink->total << " match=" << ((g_sink->match && g_sink->xoff == 0 && g_sink->xrec == g_sink->expect.size()) ? 1 : 0) << "\n";
+    } else {
+        std::string ks;
+        for (size_t i = 0; i < g_sink->lens.size(); ++i) { if (i) ks.push_back(','); ks += std::to_string(g_sink->lens[i]); }
+        std::cout << "K " << (ks.empty() ? "-" : ks) << "\n";
+        std::cout << "S " << vh::hex(g_sink->stream) << "\n";
+    }
+    std::cout << "P cb overlap=" << (g_sink->overlap.load() ? 1 : 0) << "\n";
+    std::cout << "I bp=" << g_producer_waits.load() << " peak=" << g_peak_bufs.load() << " threads=" << g_init_threads.load() << "\n";
+    std::string ns;
+    for (size_t i = 0; i < g_sink->echo_blocks.size(); ++i) { if (i) ns.push_back(','); ns += std::to_string(g_sink->echo_blocks[i]); }
+    std::cout << "N " << (ns.empty() ? "-" : ns) << "\n";
+    std::string as;
+    for (auto &x : g_aborted) { if (!as.empty()) as.push_back(','); as += std::to_string(x.first) + ":" + std::to_string(x.second); }
+    std::cout << "A " << (as.empty() ? "-" : as) << "\n";
+    std::vector<AppRec> q(g_recs.begin(), g_recs.end());
+    std::sort(q.begin(), q.end(), [](const AppRec &x, const AppRec &y) { return x.acq < y.acq; });
+    std::string qs;
+    for (auto &x : q) { if (x.acq == 0) continue; if (!qs.empty()) qs.push_back(','); qs += std::to_string(x.tid) + ":" + std::to_string(x.seq); }
+    std::cout << "Q " << (qs.empty() ? "-" : qs) << "\n";
+    g_recs.clear(); g_aborted.clear();
+}
 
 int main() {
     std::ios::sync_with_stdio(false);
@@ -338,49 +582,54 @@ int main() {
         auto w = vh::words(line);
         if (w.empty()) continue;
         if (w[0] == "case") { drop_pipe(); std::cout << line << "\n"; std::cout.flush(); continue; }
-        uint64_t a, b, c, d;
-        if (w[0] == "init" && w.size() == 5 && in_range(w[1], 65536, a) && in_range(w[2], 64, b) && in_range(w[3], 64, c) &&
-            in_range(w[4], 1000, d) && !g_live) {
+        uint64_t a, b, c, d, k;
+        if (w[0] == "init" && w.size() == 5 && in_range(w[1], kMaxSize, a) && in_range(w[2], 64, b) && in_range(w[3], 64, c) &&
+            in_range(w[4], kMaxInterval, d) && !g_live) {
             if (!g_pipe) g_pipe = new tbox::util::AsyncPipe;
             tbox::util::AsyncPipe::Config cfg;
             cfg.buff_size = a; cfg.buff_min_num = b; cfg.buff_max_num = c; cfg.interval = d;
-            g_live_bufs = 0; g_peak_bufs = 0;
+            g_live_bufs = 0; g_peak_bufs = 0; g_fail_n = 0;
             for (auto &sl : g_slots) sl.store(nullptr);
             g_track_size = (size_t)a;
+            g_init_threads = 0; g_in_init = true;
             bool ok = g_pipe->initialize(cfg);
+            g_in_init = false;
             if (!ok) g_track_size = 0;
             if (ok) {
                 delete g_sink; g_sink = new Sink; g_sink->sink_us = g_sink_us; g_sink->buff_size = (size_t)a;
-                Sink *s = g_sink;
-                g_pipe->setCallback([s](const void *p, size_t n) {
-                    if (s->inside.fetch_add(1) != 0) s->overlap = true;
-                    s->lens.push_back(n);
-                    const uint8_t *q = static_cast<const uint8_t *>(p);
-                    s->stream.insert(s->stream.end(), q, q + n);
-                    if (s->echo_mode != 0 && !s->echo_stop.load(std::memory_order_acquire) && s->echo_seq < 40) {
-                        size_t ord = s->lens.size() - 1;
-                        bool fire = s->echo_mode.load() == 1 ? (ord % s->echo_n.load() == 0) : (n < s->buff_size);
-                        if (fire) {
-                            s->in_echo.fetch_add(1);
-                            if (!s->echo_stop.load(std::memory_order_acquire)) {
-                                std::vector<uint8_t> r = record_bytes(8, s->echo_seq, s->echo_len.load());
-                                g_pipe->append(r.data(), r.size());          // nested append from inside the sink callback
-                                s->echo_blocks.push_back(ord);
-                                ++s->echo_seq;
-                            }
-                            s->in_echo.fetch_sub(1);
-                        }
-                    }
-                    if (s->sink_us) usleep(s->sink_us);
-                    while (s->gate_closed.load(std::memory_order_acquire)) { s->held.store(true); usleep(200); }
-                    s->held.store(false);
-                    maybe_delay();
-                    s->inside.fetch_sub(1);
-                });
-                g_live = true; g_declared.clear(); g_producer_waits = 0;
+                install_sink();
+                g_live = true; g_appended_any = false; g_declared.clear(); g_producer_waits = 0;
+                g_recs.clear(); g_aborted.clear();
                 for (auto &x : g_seq) x = 0;
             }
             std::cout << "P init " << (ok ? 1 : 0) << "\n";
+        } else if (w[0] == "initfail" && (w.size() == 6 || w.size() == 7) && (w[1] == "thread" || w[1] == "alloc") &&
+                   (w[1] == "thread" ? w.size() == 6 : (w.size() == 7 && in_range(w[2], 64, k))) && !g_live &&
+                   in_range(w[w.size() - 4], 4096, a) && in_range(w[w.size() - 3], 64, b) && in_range(w[w.size() - 2], 64, c) &&
+                   in_range(w[w.size() - 1], 1000, d) && (w[1] == "thread" || (k >= 1 && k <= b))) {
+            // fault schedule for initialize(): the thread cannot be created / the k-th of the buff_min_num buffers cannot be allocated
+            if (!g_pipe) g_pipe = new tbox::util::AsyncPipe;
+            tbox::util::AsyncPipe::Config cfg;
+            cfg.buff_size = a; cfg.buff_min_num = b; cfg.buff_max_num = c; cfg.interval = d;
+            const char *res = "0";
+            g_live_bufs = 0; g_peak_bufs = 0;
+            for (auto &sl : g_slots) sl.store(nullptr);
+            if (w[1] == "thread") g_fail_thread_create = true;
+            else { g_track_size = (size_t)a; g_alloc_ord = 0; g_fail_at[0] = (long)k; g_fail_n = 1; }
+            try {
+                bool ok = g_pipe->initialize(cfg);
+                if (ok) { g_pipe->cleanup(); res = "1"; }
+            } catch (const std::system_error &) { res = "threw";
+            } catch (const std::bad_alloc &) { res = "threw"; }
+            g_fail_thread_create = false; g_fail_n = 0; g_track_size = 0;
+            std::cout << "P init " << res << "\n";
+        } else if (w[0] == "reinit" && w.size() == 5 && in_range(w[1], 4096, a) && in_range(w[2], 64, b) && in_range(w[3], 64, c) &&
+                   in_range(w[4], 1000, d) && g_live) {
+            // initialize() on a pipe that is already running: must be refused, the running lifecycle unaffected
+            tbox::util::AsyncPipe::Config cfg;
+            cfg.buff_size = a; cfg.buff_min_num = b; cfg.buff_max_num = c; cfg.interval = d;
+            bool ok = g_pipe->initialize(cfg);
+            std::cout << "P reinit " << (ok ? 1 : 0) << "\n";
         } else if (w[0] == "perturb" && w.size() == 4 && in_range(w[1], 1000000000, a) && in_range(w[2], 5000, b) && in_range(w[3], 5000, c)) {
             g_seed = a; g_epoch.fetch_add(1); g_max_us = (uint32_t)b; g_sink_us = (uint32_t)c;
             if (g_sink) g_sink->sink_us = g_sink_us;   // read by the back end only inside callbacks; set between runs
@@ -394,29 +643,64 @@ int main() {
             g_sink->echo_n = (unsigned)a; g_sink->echo_len = (unsigned)b;
             g_sink->echo_mode = w[1] == "every" ? 1 : (w[1] == "partial" ? 2 : 0);
             std::cout << "P echo\n";
-        } else if (w[0] == "prod" && w.size() == 4 && in_range(w[1], 7, a) && in_range(w[2], 5000, b) && g_live) {
+        } else if (w[0] == "unsetcb" && w.size() == 1 && g_live && !g_appended_any) {
+            g_pipe->setCallback(nullptr);                    // no sink: blocks are recycled without being handed to anyone
+            std::cout << "P unsetcb\n";
+        } else if (w[0] == "setcb" && w.size() == 1 && g_live && !g_appended_any) {
+            install_sink();                                   // setCallback again (replaces the callback before any append)
+            std::cout << "P setcb\n";
+        } else if (w[0] == "compact" && w.size() == 1 && g_live && !g_appended_any && g_sink->echo_mode == 0) {
+            g_sink->compact.store(true, std::memory_order_release);
+            std::cout << "P compact\n";
+        } else if (w[0] == "allocfail" && w.size() == 2 && g_live) {
+            long ks[8]; int n = 0; bool okl = true; size_t pos = 0;
+            for (;;) {
+                size_t cpos = w[1].find(',', pos);
+                uint64_t v;
+                if (n >= 8 || !in_range(w[1].substr(pos, cpos == std::string::npos ? std::string::npos : cpos - pos), 100000, v) || v < 1) { okl = false; break; }
+                ks[n++] = (long)v;
+                if (cpos == std::string::npos) break;
+                pos = cpos + 1;
+            }
+            if (!okl) { std::cout << "bad-op\n"; std::cout.flush(); continue; }
+            g_fail_n = 0; g_alloc_ord = 0;
+            for (int i = 0; i < n; ++i) g_fail_at[i] = ks[i];
+            g_fail_n.store(n, std::memory_order_release);
+            std::cout << "P allocfail\n";
+        } else if (w[0] == "prod" && w.size() == 4 && in_range(w[1], 7, a) && in_range(w[2], 5000, b) && g_live && !g_sink->compact.load()) {
             Prod p; p.tid = (unsigned)a; p.pace_us = (unsigned)b;
             bool dup = false;
             for (auto &q : g_declared) if (q.tid == p.tid) dup = true;
             if (dup || !parse_toks(w[3], p.toks) || p.toks.size() > 2000) { std::cout << "bad-op\n"; continue; }
             g_declared.push_back(p);
             std::cout << "P prod\n";
-        } else if (w[0] == "run" && w.size() == 1 && g_live) {
+        } else if (w[0] == "run" && w.size() == 1 && g_live && !g_sink->compact.load()) {
             Watchdog wd("run", 3 * watchdog_ms(), true);     // producers stuck in back-pressure for ever
             std::atomic<bool> go{false};
             std::vector<std::thread> ths;
+            if (!g_declared.empty()) g_appended_any = true;
             for (auto &p : g_declared) ths.emplace_back(producer_main, std::cref(p), g_seq[p.tid], std::ref(go));
             go.store(true, std::memory_order_release);
             for (auto &t : ths) t.join();
-            for (auto &p : g_declared) for (auto &k : p.toks) if (k.kind != 'z') ++g_seq[p.tid];
+            for (auto &p : g_declared) for (auto &k2 : p.toks) if (k2.kind != 'z') ++g_seq[p.tid];
             g_declared.clear();
             std::cout << "P run\n";
-        } else if (w[0] == "fillhold" && w.size() == 3 && in_range(w[1], 7, a) && in_range(w[2], 20000, b) && g_live) {
+        } else if (w[0] == "big" && w.size() == 3 && in_range(w[1], 7, a) && in_range(w[2], kMaxSize, b) && g_live && g_sink->compact.load()) {
+            // one append of a (possibly huge) record, alone: the sink verifies the stream on the fly
+            Watchdog wd("big", 12 * watchdog_ms(), true);
+            g_appended_any = true;
+            unsigned tid = (unsigned)a, seq = g_seq[tid];
+            { std::lock_guard<std::mutex> lg(g_sink->xm); g_sink->expect.push_back(Expect{tid, seq, b}); }
+            std::thread th([&] { t_role = (int)tid + 1; std::vector<uint8_t> r = record_bytes(tid, seq, b); do_append(tid, seq, 'a', r); });
+            th.join();
+            ++g_seq[tid];
+            std::cout << "P big\n";
+        } else if (w[0] == "fillhold" && w.size() == 3 && in_range(w[1], 7, a) && in_range(w[2], 20000, b) && g_live && !g_sink->compact.load()) {
             bool dup = false;
             for (auto &q : g_declared) if (q.tid == a) dup = true;
             if (dup) { std::cout << "bad-op\n"; std::cout.flush(); continue; }
             Watchdog wd("fillhold", 3 * watchdog_ms(), true);
-            uint64_t waits0 = g_producer_waits.load();
+            g_appended_any = true;
             g_sink->gate_closed.store(true, std::memory_order_release);
             std::atomic<bool> go{true}, finished{false};
             Prod p; p.tid = (unsigned)a; p.pace_us = 0; p.toks.push_back(Tok{'a', (unsigned)b});
@@ -445,7 +729,11 @@ int main() {
         } else if (w[0] == "late" && w.size() == 4 && in_range(w[1], 4096, a) && in_range(w[2], 64, b) && in_range(w[3], 200, c) &&
                    a >= 1 && b >= 1 && !g_live) {
             std::cout.flush();
-            std::cout << "M late outcome=" << late_experiment((size_t)a, (size_t)b, (unsigned)c) << "\n";
+            std::cout << "M late outcome=" << experiment("late", (size_t)a, (size_t)b, (unsigned)c) << "\n";
+        } else if (w[0] == "exp" && w.size() == 5 && (w[1] == "lockless" || w[1] == "cbthrow" || w[1] == "cbcleanup") &&
+                   in_range(w[2], 4096, a) && in_range(w[3], 64, b) && in_range(w[4], 200, c) && a >= 1 && b >= 1 && !g_live) {
+            std::cout.flush();
+            std::cout << "M exp " << w[1] << " outcome=" << experiment(w[1], (size_t)a, (size_t)b, (unsigned)c) << "\n";
         } else if (w[0] == "sleep" && w.size() == 2 && in_range(w[1], 500, a)) {
             usleep((useconds_t)a * 1000);
             std::cout << "P sleep\n";
@@ -455,18 +743,18 @@ int main() {
                 std::cout << "P cleanup noop\n";
             } else {
                 guarded_cleanup(true);
-                g_track_size = 0;
-                g_live = false; g_declared.clear();
-                std::cout << "P cleanup ok\n";
-                std::string ks;
-                for (size_t i = 0; i < g_sink->lens.size(); ++i) { if (i) ks.push_back(','); ks += std::to_string(g_sink->lens[i]); }
-                std::cout << "K " << (ks.empty() ? "-" : ks) << "\n";
-                std::cout << "S " << vh::hex(g_sink->stream) << "\n";
-                std::cout << "P cb overlap=" << (g_sink->overlap.load() ? 1 : 0) << "\n";
-                std::cout << "I bp=" << g_producer_waits.load() << " peak=" << g_peak_bufs.load() << "\n";
-                std::string ns;
-                for (size_t i = 0; i < g_sink->echo_blocks.size(); ++i) { if (i) ns.push_back(','); ns += std::to_string(g_sink->echo_blocks[i]); }
-                std::cout << "N " << (ns.empty() ? "-" : ns) << "\n";
+                print_lifecycle("P cleanup ok");
+            }
+        } else if (w[0] == "destroy" && w.size() == 1) {
+            // the destructor of a pipe: on a live one it must do what cleanup() does
+            if (!g_live) {
+                delete g_pipe; g_pipe = nullptr;
+                std::cout << "P destroy noop\n";
+            } else {
+                { Watchdog wd("destroy", watchdog_ms(), true);
+                  quiesce_sink();
+                  delete g_pipe; g_pipe = nullptr; }
+                print_lifecycle("P destroy ok");
             }
         } else {
             std::cout << "bad-op\n";
